@@ -75,7 +75,7 @@ func isCompiledCall(ins ssa.Instruction, method string) bool {
 		return false
 	}
 	sc := c.Common().StaticCallee()
-	return sc != nil && sc.Name() == method && typeName(recvType(sc)) == "compiledQuery"
+	return sc != nil && cname(sc) == method && typeName(recvType(sc)) == "compiledQuery"
 }
 
 func c18r1(p *Prog, r *Reporter) {
@@ -660,7 +660,7 @@ func c18r7(p *Prog, r *Reporter) {
 				if stt, ok := subs[sub].Underlying().(*types.Struct); ok && !whole && stt.NumFields() > 0 {
 					fieldwise = true
 					for k := 0; k < stt.NumFields(); k++ {
-						suffix := "." + sub + "." + stt.Field(k).Name()
+						suffix := "." + sub + "." + fieldName(subs[sub], k)
 						if !rebuilt(func(addr ssa.Value) bool { return strings.HasSuffix(apath(addr), suffix) }) {
 							fieldwise = false
 						}
@@ -823,7 +823,7 @@ func c18r10(p *Prog, r *Reporter) {
 			return "?", x
 		}
 		if c := callOf(v); c != nil {
-			if sc := c.Common().StaticCallee(); sc != nil && sc.Name() == "Unregister" && typeName(recvType(sc)) == "Cache" {
+			if sc := c.Common().StaticCallee(); sc != nil && cname(sc) == "Unregister" && typeName(recvType(sc)) == "Cache" {
 				return "U", c.Common().Args[1]
 			}
 			if sc := c.Common().StaticCallee(); sc != nil && typeName(recvType(sc)) == "compiledQuery" && sc.Blocks != nil {
@@ -866,27 +866,75 @@ func c18r10(p *Prog, r *Reporter) {
 		n[name+kind]++
 		construct := fmt.Sprintf("filter store (%s) #%d", map[string]string{"A": "mask filter", "B": "include mask only", "C": "relation filter", "D": "cached filter", "U": "unregistered filter", "H": "via helper", "?": "other"}[kind], n[name+kind])
 		pos := p.Pos(st.Pos())
-		noExcl := func(at ssa.Instruction) string {
-			if !factBefore(fn, at, "exclusive=false") {
+		// contexts: the function itself, or - for a helper method that is only called from Compile - its call sites there
+		type ctx struct {
+			caller *ssa.Function
+			site   ssa.CallInstruction
+		}
+		var ctxs []ctx
+		isTop := cname(fn) == "Compile" || cname(fn) == "Register" || cname(fn) == "Unregister"
+		inCompile := cname(fn) == "Compile"
+		if !isTop {
+			all := true
+			for _, g := range p.Funcs {
+				for _, cs := range callsIn(g) {
+					if isCallTo(cs, fn) {
+						ctxs = append(ctxs, ctx{g, cs})
+						if !(typeName(recvType(g)) == "compiledQuery" && cname(g) == "Compile") {
+							all = false
+						}
+					}
+				}
+			}
+			inCompile = all && len(ctxs) > 0
+		}
+		noExclIn := func(f *ssa.Function, at ssa.Instruction) string {
+			if !factBefore(f, at, "exclusive=false") {
 				return "`exclusive` is not known to be false here"
 			}
-			if !factBefore(fn, at, "lenzero(exclude)") {
+			if !factBefore(f, at, "lenzero(exclude)") {
 				return "`exclude` is not known to be empty here"
 			}
 			return ""
 		}
-		underTarget := fn.Name() == "Compile" && factBefore(fn, st, "hasTarget=true")
+		noExcl := func(at ssa.Instruction) string {
+			if isTop || len(ctxs) == 0 {
+				return noExclIn(fn, at)
+			}
+			// in a helper: guarded by a bool parameter whose argument at every call implies the two facts
+			for _, pr := range fn.Params {
+				bt, ok := pr.Type().Underlying().(*types.Basic)
+				if !ok || bt.Kind() != types.Bool || !factBefore(fn, at, pr.Name()+"=true") {
+					continue
+				}
+				why := ""
+				for _, c := range ctxs {
+					f := boolFacts(c.site.Common().Args[paramIndex(pr)], true, 0)
+					if !(f["exclusive=false"] && f["lenzero(exclude)"]) {
+						why = "the argument for parameter " + pr.Name() + " at " + p.Pos(c.site.Pos()) + " does not imply that exclusive is false and exclude is empty"
+					}
+				}
+				return why
+			}
+			return "the store in helper " + cname(fn) + " is not guarded by a flag that the caller derives from `!exclusive && len(exclude) == 0`"
+		}
+		underTarget := cname(fn) == "Compile" && factBefore(fn, st, "hasTarget=true")
+		for _, c := range ctxs {
+			if inCompile && factBefore(c.caller, c.site.(ssa.Instruction), "hasTarget=true") {
+				underTarget = true
+			}
+		}
 		switch kind {
 		case "A":
 			if underTarget {
 				r.Bad(name, construct, pos, "a target is given here, but the filter stored is the plain mask filter: the target clause is lost")
-			} else if fn.Name() != "Compile" {
+			} else if !inCompile {
 				r.Bad(name, construct, pos, "outside Compile the filter may only be wrapped (Register) or restored (Unregister); storing the plain mask filter drops a relation clause compiled earlier")
 			} else {
 				r.OK(name, construct, pos, "the full mask filter (include and exclude), where no target is given")
 			}
 		case "B":
-			if underTarget || fn.Name() != "Compile" {
+			if underTarget || !inCompile {
 				r.Bad(name, construct, pos, "the include mask alone is stored where a target is given / outside Compile: clauses are lost")
 			} else if why := noExcl(st); why != "" {
 				r.Bad(name, construct, pos, "the include mask alone is used as the filter, but "+why+": the exclude clause is lost")
@@ -909,7 +957,7 @@ func c18r10(p *Prog, r *Reporter) {
 			switch {
 			case !underTarget:
 				r.Bad(name, construct, pos, "the relation filter is stored where `hasTarget` is not known true")
-			case mk == nil || mk.Common().StaticCallee() == nil || mk.Common().StaticCallee().Name() != "NewRelationFilter":
+			case mk == nil || mk.Common().StaticCallee() == nil || cname(mk.Common().StaticCallee()) != "NewRelationFilter":
 				r.Bad(name, construct, pos, "the relation filter is not (re)built by NewRelationFilter in the same block: a stale target or filter would be used")
 			default:
 				ik, _ := classify(mk.Common().Args[0])
@@ -938,7 +986,7 @@ func c18r10(p *Prog, r *Reporter) {
 				}
 				if s2, ok := ins.(*ssa.Store); ok {
 					if fa, ok := s2.Addr.(*ssa.FieldAddr); ok && fieldName(fa.X.Type(), fa.Field) == "cachedFilter" {
-						if c := callOf(s2.Val); c != nil && c.Common().StaticCallee() != nil && c.Common().StaticCallee().Name() == "Register" {
+						if c := callOf(s2.Val); c != nil && c.Common().StaticCallee() != nil && cname(c.Common().StaticCallee()) == "Register" {
 							if _, f, _, ok := loadedField(c.Common().Args[1]); ok && f == "filter" {
 								okd = true
 							}
@@ -969,7 +1017,7 @@ func c18r10(p *Prog, r *Reporter) {
 				case "A":
 				case "B":
 					if hr.param == "" {
-						bad = append(bad, h.Name()+" returns the include mask alone on a path not guarded by a bool parameter")
+						bad = append(bad, cname(h)+" returns the include mask alone on a path not guarded by a bool parameter")
 						continue
 					}
 					var arg ssa.Value
@@ -980,19 +1028,19 @@ func c18r10(p *Prog, r *Reporter) {
 					}
 					f := boolFacts(arg, true, 0)
 					if !(f["exclusive=false"] && f["lenzero(exclude)"]) {
-						bad = append(bad, "the argument for "+h.Name()+"'s parameter "+hr.param+" does not imply that exclusive is false and exclude is empty")
+						bad = append(bad, "the argument for "+cname(h)+"'s parameter "+hr.param+" does not imply that exclusive is false and exclude is empty")
 					}
 				default:
-					bad = append(bad, h.Name()+" may return a filter of kind "+hr.kind)
+					bad = append(bad, cname(h)+" may return a filter of kind "+hr.kind)
 				}
 			}
 			switch {
-			case underTarget || fn.Name() != "Compile":
-				r.Bad(name, construct, pos, "a plain filter from "+h.Name()+" is stored where a target is given / outside Compile: clauses are lost")
+			case underTarget || !inCompile:
+				r.Bad(name, construct, pos, "a plain filter from "+cname(h)+" is stored where a target is given / outside Compile: clauses are lost")
 			case len(bad) > 0:
 				r.Bad(name, construct, pos, strings.Join(bad, "; "))
 			default:
-				r.OK(name, construct, pos, h.Name()+" returns the full mask filter, or the include mask alone only under a flag that the caller passes as `!exclusive && len(exclude) == 0`")
+				r.OK(name, construct, pos, cname(h)+" returns the full mask filter, or the include mask alone only under a flag that the caller passes as `!exclusive && len(exclude) == 0`")
 			}
 		default:
 			r.Bad(name, construct, pos, "the value stored as the filter ("+apath(inner)+") is none of: mask filter, include mask, relation filter, cached filter, Cache.Unregister result")
